@@ -133,7 +133,9 @@ def run_schedule(task):
             holder = {}
 
             def f():
-                st = get_context().evaluate(queries[i])
+                # a thread is a query text, or [query text, extra parameters] (evaluated with extra_parameters: oracle-only families)
+                qi = queries[i]
+                st = get_context().evaluate(qi) if isinstance(qi, str) else get_context().evaluate(qi[0], extra_parameters=list(qi[1]))
                 holder["st"] = st
                 return st
             try:
@@ -177,9 +179,9 @@ def run_schedule(task):
         cache_line = H.render_cache(inner)
         keys = set()
         for q in queries:
-            keys |= EP.related_keys(q)
+            keys |= EP.related_keys(q if isinstance(q, str) else q[0])
         findings = EP.inspect_cache(inner, keys, defaults)
-        solo = [{k: v for k, v in EP.fresh(("E", q), defaults).items() if k != "metadata"} for q in queries]
+        solo = [{k: v for k, v in EP.fresh(("E", q) if isinstance(q, str) else ("XL", q[0], list(q[1])), defaults).items() if k != "metadata"} for q in queries]
         return dict(lines=lines, cache=cache_line, obs=obs, findings=findings, solo=solo, events=list(sched.events), clobber=clobbering_write(sched.glog))
     finally:
         shutil.rmtree(tmp, ignore_errors=True)
@@ -258,6 +260,22 @@ def _positions(ops, before=(), after=()):
         if o[:1] in after:
             pos.add(i + 1)
     return sorted(pos)
+
+
+def gen_extra_tasks(ctx):
+    """oracle-only: a plain evaluation finishes, an evaluation of the SAME query with extra parameters (volatile, never stored) is stopped
+    after k of its cache operations, a second plain evaluation runs in that window (it may be served the finished entry, but not the
+    record of the evaluation that is still running), then everything finishes. In-place mutating tails on a cached list-valued prefix too."""
+    big = 400
+    tasks = []
+    for ci in range(len(CACHES)):
+        for q, extra in (("one/add", ["10"]), ("num-5/add/cat-a", ["x"]), ("hello-x/cat", ["y"])):
+            for k in range(1, 16 if ctx.tier == "thorough" else 11):
+                tasks.append((ci, [q, [q, extra], q + "/ident"], [0] * big + [1] * k + [2] * big + [1] * big, {}))
+        # a list-valued prefix that is cached first, then in-place appends on it from two evaluations (served copies must be private)
+        for k in (1, 3, 5, 8):
+            tasks.append((ci, ["vals-a-b", "vals-a-b/app-x", "vals-a-b/app-y"], [0] * big + [1] * k + [2] * big + [1] * big, {}))
+    return tasks
 
 
 def gen_file_tasks(ctx):
@@ -350,23 +368,24 @@ def judge_file(ctx, tasks, results):
 
 
 def judge(ctx, tasks, results):
-    for (ci, qs, schedule, dflt), r in zip(tasks, results):
+    for (ci, qs_, schedule, dflt), r in zip(tasks, results):
+        qs = [q if isinstance(q, str) else "%s [extra parameters %r]" % (q[0], q[1]) for q in qs_]
         name = CACHES[ci][0]
         switched = any(a != b for a, b in zip(schedule, schedule[1:]))
         ctx.case(("%s|%r|%r" % (name, qs, schedule)) if switched else None)
         ctx.count("cache", name)
         ctx.count("threads", str(len(qs)))
-        case = dict(kind="schedule", cache=ci, queries=qs, schedule=schedule, defaults=dflt)
+        case = dict(kind="schedule", cache=ci, queries=qs_, schedule=schedule, defaults=dflt)
         for i, (o, s) in enumerate(zip(r["obs"], r["solo"])):
             a, b = EP.obs_public(o), EP.obs_public(s)
             if a != b:
                 diff = {k: (a[k], b[k]) for k in a if a[k] != b[k]}
-                key = "rtq-ambiguous-text" if EP.rtq_involved(qs) else "thread-result:%s:%s" % (name, hx(qs[i]))
+                key = "rtq-ambiguous-text" if EP.rtq_involved([q if isinstance(q, str) else q[0] for q in qs_]) else "thread-result:%s:%s" % (name, hx(qs[i]))
                 ctx.violation(key, "%s, threads %r under schedule [%s]: thread %d returns %r, alone it returns %r" % (
                     name, qs, rle(schedule), i, {k: v[0] for k, v in diff.items()}, {k: v[1] for k, v in diff.items()}), case)
         for vkey, text in r["findings"]:
             k = vkey.split(":", 1)[1]
-            ctx.violation("rtq-ambiguous-text" if (EP.rtq_ambiguous(k) or EP.rtq_involved(qs)) else "final-cache:%s:%s" % (name, vkey),
+            ctx.violation("rtq-ambiguous-text" if (EP.rtq_ambiguous(k) or EP.rtq_involved([q if isinstance(q, str) else q[0] for q in qs_])) else "final-cache:%s:%s" % (name, vkey),
                           "%s, threads %r under schedule [%s]: at quiescence %s" % (name, qs, rle(schedule), text), case)
         if switched and len(ctx.samples) < 5:
             ctx.sample(dict(cache=name, queries=qs, schedule=schedule, traces=[l.split(" # ")[-1][:200] for l in r["lines"]]))
@@ -400,6 +419,10 @@ def run(ctx):
     tasks = csched + gen_tasks(ctx, count)
     results = common.pmap(run_schedule, tasks)
     judge(ctx, tasks, results)
+    # evaluations with extra parameters / in-place tails (oracle only: the replay model runs plain evaluations)
+    xtasks = gen_extra_tasks(ctx)
+    judge(ctx, xtasks, common.pmap(run_schedule, xtasks))
+    ctx.count("schedules", "with an extra-parameter evaluation or in-place tails (oracle only)", len(xtasks))
     # file-operation granularity on the file-backed caches (oracle only)
     ftasks = cfsched + gen_file_tasks(ctx)
     judge_file(ctx, ftasks, common.pmap(concfile.run_file_schedule, [t[:4] for t in ftasks]))
